@@ -15,7 +15,6 @@ Four grammars, one per layer of `parseOp`:
 -/
 namespace Einx.Notation
 
-def Expr.isEllipsis : Expr → Bool | .ellipsis .. => true | _ => false
 def Expr.isOp : Expr → Bool | .op .. => true | _ => false
 def Expr.isArgs : Expr → Bool | .args .. => true | _ => false
 
@@ -84,9 +83,10 @@ def patEllList : Expr → Bool
   | .ellipsis (.list ..) _ _ _ => true
   | _ => false
 
-/-- `Ellipsis` directly over an `Ellipsis` (printed `x......`). -/
+/-- `Ellipsis` directly over an `Ellipsis` over anything but the anonymous axis (printed `x......`, three tokens in a row;
+    `......` itself — an ellipsis over `...` — re-parses to the same tree). -/
 def patEllEll : Expr → Bool
-  | .ellipsis (.ellipsis ..) _ _ _ => true
+  | .ellipsis (.ellipsis i _ _ _) _ _ _ => !isAnonAxisNone i
   | _ => false
 
 /-- `FlattenedAxis` directly over a `ConcatenatedAxis` (printed `((a + b))`). -/
